@@ -8,13 +8,13 @@ ALL = [f"C{i:02d}" for i in range(1, 40)]
 CLAIMS = {
  "C01": ("model_checking", "TLA+ reference semantics (SplitAlgebra!Expand) enumerated by TLC; every case replayed on pydra State and a sample through the public API",
          "TLC enumerates every splitter tree (n-ary outer/inner) over <=4 fields x every length vector and computes the expected job sequence from the set-theoretic spec; the real State.prepare_states and Task.split()() must agree on every case (jobs, values, order, rejection with zero jobs).",
-         "Trusted: TLC, the SplitAlgebra spec as transcription of the documented semantics, the JSON bridge. Inner operands of equal flat length but different shape are not judged (statement silent).", "6/C01"),
+         "Trusted: TLC, the SplitAlgebra spec as transcription of the documented semantics, the JSON bridge. Inner operands of equal flat length but different shape must be rejected (the engine does so on the unchanged tree; the documentation requires equal lengths).", "6/C01"),
  "C02": ("model_checking", "TLA+ reference semantics (SplitAlgebra!Groups, theorem IsOrderedPartition) enumerated by TLC; replayed on State and the public API",
          "TLC enumerates tree x lengths x non-empty combiner subsets, proves the ordered-partition theorem on every case of the spec and emits the expected groups; pydra's final_combined_ind_mapping/keys_final and the nested API outputs must agree on every case.",
          "Trusted: TLC, spec, JSON bridge. Lists of length 0 are outside the property's quantifier and are not generated.", "6/C02"),
  "C04": ("model_checking", "TLA+ reference (SplitAlgebra!Flat) enumerated by TLC over nested lists; replayed through Task.split(container_ndim=...)",
          "TLC enumerates every nested list of uniform depth <=3 (regular and ragged, inner lengths 0..3 / 0..2 at depth 3) x container dimension x context (alone, outer left/right, inner) and computes the depth-first element sequence; the real split must run exactly those jobs in that order.",
-         "Trusted: TLC, spec, JSON bridge. Inner context pairs the nested field with a second field of the same nested shape (a flat partner has a different shape, which C01 leaves undecided).", "6/C04"),
+         "Trusted: TLC, spec, JSON bridge. Inner context pairs the nested field with a second field of the same nested shape (a flat partner has a different shape, which C01 requires to be rejected).", "6/C04"),
  "C05": ("model_checking", "TLA+ Normalize theorem + WellFormed predicate enumerated by TLC; every spelling and every perturbed request replayed on the real API",
          "TLC proves Expand(t)=Expand(Normalize(t)) on every enumerated tree incl. unary wrappers and emits all spellings grouped by normal form; all spellings must run the spec's jobs on pydra (state level all, API sample) and agree with each other. SplitAlgebra_Req enumerates valid requests and all single-point perturbations; WellFormed=FALSE must give an error with zero executed bodies and no job directory.",
          "Trusted: TLC, spec, JSON bridge. Requests use lists of length 2. Unary wrappers: one per tree.", "6/C05"),
